@@ -71,6 +71,11 @@ func splitTable(fq string) (ns, table string) {
 }
 
 func metaRowCells(r *Region) []wire.Cell {
+	return metaRowCellsWith(r, nil)
+}
+
+// metaRowCellsWith builds a meta row; info, if non-nil, replaces the regioninfo value.
+func metaRowCellsWith(r *Region, info []byte) []wire.Cell {
 	ns, tb := splitTable(r.Table)
 	ri := &pb.RegionInfo{
 		RegionId:  proto.Uint64(r.ID),
@@ -82,6 +87,9 @@ func metaRowCells(r *Region) []wire.Cell {
 	}
 	b, _ := proto.Marshal(ri)
 	val := append([]byte("PBUF"), b...)
+	if info != nil {
+		val = info
+	}
 	mk := func(q string, v []byte) wire.Cell {
 		return wire.Cell{Row: r.Name, Family: []byte("info"), Qualifier: []byte(q), Timestamp: r.ID, Type: wire.TypePut, Value: v}
 	}
@@ -209,8 +217,16 @@ func (c *Cluster) metaReplyLocked(e Exec, m *pb.ScanRequest) *Reply {
 	}
 	resp := &pb.ScanResponse{ScannerId: proto.Uint64(uint64(9000 + c.MetaScans)), MoreResultsInRegion: proto.Bool(false), MoreResults: proto.Bool(false)}
 	var cb []byte
+	var corrupt []byte
+	if len(c.MetaCorrupt) > 0 && len(sel) > 0 {
+		corrupt = c.MetaCorrupt[0]
+		c.MetaCorrupt = c.MetaCorrupt[1:]
+		if corrupt == nil {
+			corrupt = []byte{}
+		}
+	}
 	for _, r := range sel {
-		cells := metaRowCells(r)
+		cells := metaRowCellsWith(r, corrupt)
 		if c.UseCellBlocks {
 			resp.CellsPerResult = append(resp.CellsPerResult, uint32(len(cells)))
 			resp.PartialFlagPerResult = append(resp.PartialFlagPerResult, false)
